@@ -7,6 +7,7 @@ import (
 	"errors"
 	"fmt"
 	"sort"
+	"strings"
 	"sync"
 
 	"github.com/hashicorp/nodeenrollment"
@@ -42,7 +43,26 @@ type Line struct {
 var known = []string{"ni", "nc", "rc", "tk"}
 var ids = []string{"a", "b"}
 
+// concrete encodings of the abstract values have different lengths, so that
+// overwriting a long record with a short one (and back) is exercised
+func enc(v string) string {
+	if v == "v2" {
+		// \x07 is valid UTF-8 but an invalid protobuf tag (wire type 7): stale bytes left behind a shorter
+		// record cannot be mistaken for unknown fields
+		return "v2" + strings.Repeat("\x07", 120)
+	}
+	return v
+}
+
+func dec(s string) string {
+	if s == enc("v2") {
+		return "v2"
+	}
+	return s
+}
+
 func msgFor(t, id, v string) nodeenrollment.MessageWithId {
+	v = enc(v)
 	switch t {
 	case "ni":
 		return &types.NodeInformation{Id: id, WrappingKeyId: v}
@@ -61,13 +81,13 @@ func msgFor(t, id, v string) nodeenrollment.MessageWithId {
 func valOf(m nodeenrollment.MessageWithId) string {
 	switch x := m.(type) {
 	case *types.NodeInformation:
-		return x.WrappingKeyId
+		return dec(x.WrappingKeyId)
 	case *types.NodeCredentials:
-		return x.WrappingKeyId
+		return dec(x.WrappingKeyId)
 	case *types.RootCertificates:
-		return x.WrappingKeyId
+		return dec(x.WrappingKeyId)
 	case *types.ServerLedActivationToken:
-		return x.WrappingKeyId
+		return dec(x.WrappingKeyId)
 	}
 	return "absent"
 }
